@@ -688,6 +688,17 @@ fn kzg_run(ctx: &mut Ctx, schemas: &[SchemaTxt], n: usize) {
         }
         let b = layout_any(ctx, schemas, &id, &t.powers as &dyn Any);
         let powers2 = artefact(&mut ctx.rep, &mut rng, &id, "kzg10", "powers", &t.powers, &b);
+        // powers whose two lists have DIFFERENT lengths (what MarlinKZG10's `ck.powers()` hands out when the hiding
+        // bound is smaller than the degree): sizes must still be the bytes written
+        for k in [0usize, 1, 2, t.powers.powers_of_gamma_g.len().saturating_sub(1)] {
+            if k >= t.powers.powers_of_gamma_g.len() { continue; }
+            let uneven = kzg10::Powers::<Bls12_381> {
+                powers_of_g: t.powers.powers_of_g.clone(),
+                powers_of_gamma_g: std::borrow::Cow::Owned(t.powers.powers_of_gamma_g[..k].to_vec()),
+            };
+            let uid = format!("{}/uneven-{}", id, k);
+            let _ = artefact(&mut ctx.rep, &mut rng, &uid, "kzg10", "powers(uneven)", &uneven, &NOB);
+        }
         let b = layout_any(ctx, schemas, &id, &t.vk as &dyn Any);
         let vk2 = artefact(&mut ctx.rep, &mut rng, &id, "kzg10", "verifier-key", &t.vk, &b);
         let comm2 = artefact(&mut ctx.rep, &mut rng, &id, "kzg10", "commitment", &t.comm, &NOB);
